@@ -83,7 +83,7 @@ def _vol_ok(pts, cell) -> bool:
 class C14(core.Check):
     pid = "C14"
     props_module = "CBV.Props.C14"
-    workers = 1
+    workers = 8
     rule = (
         "cells: convex hexahedra (unit cube jittered by up to 0.25, or a sheared/stretched parallelepiped with jitter) and "
         "planar convex quadrilaterals (jittered square or sheared/stretched), dyadic coordinates, 0..6 (hex) / 0..4 (quad) "
@@ -110,6 +110,17 @@ class C14(core.Check):
         "post-processing (pow/log10) in the aspect ratio is checked by the oracle, not proved. Quad renumbering is proved for "
         "planar convex quadrilaterals on Sig0."
     )
+
+    def static_checks(self) -> List[str]:
+        """the renumberings the harness applies are exactly the 24 rotations the theorem T_C14_renumber quantifies over"""
+        try:
+            ans = core.run_driver(["c14.rot24"])[0]
+        except Exception as e:  # the build is broken; reported by the pipeline already
+            return [f"model does not answer c14.rot24 ({type(e).__name__})"]
+        model = sorted(tuple(int(x) for x in r.strip("[]").split(",")) for r in ans.split(";")) if ans != "bad-op" else []
+        if model != sorted(tuple(r) for r in ROT24):
+            return ["the harness' 24 rotations differ from the model's rot24"]
+        return []
 
     # ------------------------------------------------------------------ generators
     def _hex_cell(self, rng: random.Random, far: bool):
@@ -161,6 +172,15 @@ class C14(core.Check):
             if ok:
                 return pts
 
+    @staticmethod
+    def _convex_quad(pts, cell) -> bool:
+        """planar quadrilateral (z = 0 here) whose four corner turns have the same sign, with a margin"""
+        turns = []
+        for i in range(4):
+            a, b, c = pts[cell[i]], pts[cell[(i + 1) % 4]], pts[cell[(i + 3) % 4]]
+            turns.append((b[0] - a[0]) * (c[1] - a[1]) - (b[1] - a[1]) * (c[0] - a[0]))
+        return all(t > F(1, 10) for t in turns) or all(t < -F(1, 10) for t in turns)
+
     def _with_quad_neighbours(self, rng, pts):
         cells = [[0, 1, 2, 3]]
         ctr = [sum(p[d] for p in pts) / 4 for d in range(3)]
@@ -169,11 +189,16 @@ class C14(core.Check):
                 continue
             a, b = i, (i + 1) % 4
             fc = [(pts[a][d] + pts[b][d]) / 2 for d in range(3)]
-            out = [(fc[d] - ctr[d]) * _dy(rng, 1, 3, 4) for d in range(3)]
-            na, nb_ = len(pts), len(pts) + 1
-            pts.append([pts[a][d] + out[d] + (_dy(rng, -0.15, 0.15) if d < 2 else 0) for d in range(3)])
-            pts.append([pts[b][d] + out[d] + (_dy(rng, -0.15, 0.15) if d < 2 else 0) for d in range(3)])
-            cells.append([b, a, na, nb_])
+            for _attempt in range(20):
+                out = [(fc[d] - ctr[d]) * _dy(rng, 1, 3, 4) for d in range(3)]
+                pa = [pts[a][d] + out[d] + (_dy(rng, -0.15, 0.15) if d < 2 else 0) for d in range(3)]
+                pb = [pts[b][d] + out[d] + (_dy(rng, -0.15, 0.15) if d < 2 else 0) for d in range(3)]
+                trial = pts + [pa, pb]
+                cell = [b, a, len(pts), len(pts) + 1]
+                if self._convex_quad(trial, cell):  # the property quantifies over convex quadrilaterals only
+                    pts = trial
+                    cells.append(cell)
+                    break
         return pts, cells
 
     def _small_grid(self, rng, kind):
@@ -181,8 +206,10 @@ class C14(core.Check):
 
         pq, cq = _structured_quads(2, rng.choice([1, 2]))
         if kind == "quad":
-            pts = [[p[0] + _dy(rng, -0.2, 0.2), p[1] + _dy(rng, -0.2, 0.2), F(0)] for p in pq]
-            return pts, cq
+            while True:
+                pts = [[p[0] + _dy(rng, -0.2, 0.2), p[1] + _dy(rng, -0.2, 0.2), F(0)] for p in pq]
+                if all(self._convex_quad(pts, c) for c in cq):
+                    return pts, cq
         p3, c3 = _extrude(pq, cq, 1)
         pts = [[x + _dy(rng, -0.2, 0.2) for x in p] for p in p3]
         return pts, c3
@@ -212,7 +239,7 @@ class C14(core.Check):
         return ts
 
     def gen_cases(self, rng: random.Random, tier: str) -> List[dict]:
-        n = 60 if tier == "quick" else 700
+        n = 80 if tier == "quick" else 300
         cases: List[dict] = []
         S = lambda pts: [[str(x) for x in p] for p in pts]
         for k in range(n):
